@@ -15,6 +15,7 @@ What the harness controls (all harness-side, nothing in /repo):
 from __future__ import annotations
 
 import logging
+import os
 import pickle
 import types
 
@@ -327,7 +328,7 @@ class Sim:
         elif name == "watchdog":
             self.workq.dropdead()
         elif name == "restart":
-            self.db = pickle.loads(pickle.dumps(self.db, 2))
+            self.db = self._save_and_load(self.db)
             self.proxy.captured.clear()
             self.old_conns += list(self.conns.values())
             self.conns = {}
@@ -347,6 +348,28 @@ class Sim:
             elif cmd in ("finish", "kill"):
                 out.append("ok")
         return " ".join(out) + " | " + self.snapshot()
+
+    @staticmethod
+    def _save_and_load(db):
+        """the server's own way: qserve.Main.savedb() in the loop's finally, Main.loaddb() at the next start (a real file)."""
+        import shutil
+        import tempfile
+
+        from qs import qserve
+
+        d = tempfile.mkdtemp(prefix="qs-")
+        try:
+            m = qserve.Main.__new__(qserve.Main)
+            m.data_dir = d
+            m.qpath = os.path.join(d, "workq.pickle")
+            m.db = db
+            m.savedb()
+            m2 = qserve.Main.__new__(qserve.Main)
+            m2.data_dir = d
+            m2.loaddb()
+            return m2.db
+        finally:
+            shutil.rmtree(d, ignore_errors=True)
 
     # ------------------------------------------------------------------ observation
     def snapshot(self) -> str:
